@@ -193,4 +193,18 @@ def run(repo, tier):
         ('photutils.centroids.core.centroid_quadratic', 'test', 'det <= 0 or ((c20 > 0.0 and c02 >= 0.0) or (c20 >= 0.0 and c02 > 0.0))',
          'no maximum iff the Hessian determinant is <= 0 or the curvature is non-negative (exact comparison: scale-free)'),
     ])
+    from .common import run_unravel, run_truthy_none
+    run_unravel(repo, res, MODS)
+    run_truthy_none(repo, res, MODS)
+    apply_specs(repo, res, [
+        ('photutils.centroids.gaussian.centroid_2dg', 'test', 'data.mask is not np.ma.nomask',
+         'masked pixels get zero weight whether or not an error array is given'),
+    ])
+    c2 = repo.get_function('photutils.centroids.gaussian.centroid_2dg')
+    zw = [a_ for a_ in ast.walk(c2.node) if isinstance(a_, ast.Assign) and SP.nf_stmt(a_) == nf_text('weights[data.mask]') + ' = 0']
+    from .common import guard_only
+    if len(zw) != 1:
+        raise AnalysisError('vanished anchor: zero weight for masked pixels in centroid_2dg')
+    guard_only(res, 'GUARD', c2, zw[0], {'data.mask is not np.ma.nomask'}, 'the zero weight of masked pixels',
+               'without an error array masked pixels enter the fit as zero-filled points with full weight')
     return res
